@@ -378,6 +378,15 @@ func (d *BFD) DecodeFromBytes(data []byte, df gopacket.DecodeFeedback) error {
 
 	if d.AuthPresent && (len(data) > 2) {
 		d.AuthHeader = &BFDAuthHeader{}
+		if len(data) < 3 {
+			return errors.New("BFD packet too short for authentication section")
+		}
+		switch BFDAuthType(data[0]) {
+		case BFDAuthTypeKeyedMD5, BFDAuthTypeMeticulousKeyedMD5, BFDAuthTypeKeyedSHA1, BFDAuthTypeMeticulousKeyedSHA1:
+			if len(data) < 8 {
+				return errors.New("BFD packet too short for keyed authentication section")
+			}
+		}
 		data, d.AuthHeader.AuthType = data[1:], BFDAuthType(data[0])
 		data, _ = data[1:], uint8(data[0]) // Consume length
 		data, d.AuthHeader.KeyID = data[1:], BFDAuthKeyID(data[0])
